@@ -149,6 +149,13 @@ def run(ck: Checker):
         bad = [n for n in feas if n >= 1 and not _is_or(t, n)]
         ck.check(not bad, 'C13.WIRE', m, c, f'final {t} gate is true iff some xor output is true', f'{t} over {bad} operands is not their disjunction', construct=f'build_miter: final {t} meaning')
     ck.floor('C13.ARITY', 1)
+    ck.rule('C10.*', 'the miter pairs the outputs of the two blocks by position, so the composition rules of C10 (block interface order, attached-gate emission, outputs/inputs composition) are part of this check')
+    from . import C10 as _c10
+    sub = Checker(repo, 'C13', ck.tier)
+    _c10.run(sub)
+    for o in sub.obligations:
+        if o.rule in ('C10.BLOCK', 'C10.IFACE', 'C10.EMIT', 'C10.PURE'):
+            ck.obligations.append(o)
     ck.assume('evaluation of the composed miter relies on C10 (composition) whose truth-table clause is undecided')
 
 
